@@ -403,6 +403,9 @@ def run(ctx):
         ctx.fn(b)
         used = sorted({t["callee"].get("method") for bd in [b] + prog.closures_of(b) for _bb, t in bd.calls()
                        if t["callee"].get("method") in (POSITIONAL_CUT - {"find", "find_map", "position", "any", "all"}) | {"binary_search", "binary_search_by_key", "first", "last"}})
+        ms = {t["callee"].get("method") for bd in [b] + prog.closures_of(b) for _bb, t in bd.calls()}
+        if "rev" in ms and ms & {"position", "enumerate"} and ms & {"swap_remove", "remove", "get", "get_mut", "index", "index_mut", "get_unchecked"}:
+            used = sorted(set(used) | {"rev+position (an index counted from the back used as an index from the front)"})
         ctx.ob("R8.pin-state-lookups-complete", b.key.split("system_hardware::")[-1], not used, b.loc(),
                f"positional cuts / order assumptions in the lookup: {used or 'none'}")
     if n8 == 0:
